@@ -141,7 +141,10 @@ class Extractor:
         """All syntactic paths through finfo; each ends in a return value."""
         env: dict = dict(outer_env or {})
         env["__module__"] = finfo.module
-        env["__class__"] = finfo.cls
+        if finfo.cls is not None and not (outer_env and outer_env.get("__keepclass__")):
+            env["__class__"] = finfo.cls
+        else:
+            env.setdefault("__class__", finfo.cls)
         a = finfo.node.args
         params = [x.arg for x in a.posonlyargs + a.args]
         defaults = [None] * (len(params) - len(a.defaults)) + list(a.defaults)
@@ -202,7 +205,11 @@ class Extractor:
 
     def stmt(self, st: ast.stmt, env: dict, guards: list[Guard], depth: int):
         if isinstance(st, ast.Expr):
-            return [(env, guards, None)]  # docstrings, logging, bare calls: no value effect modelled
+            if isinstance(st.value, ast.Call):
+                fi = self._effect_callee(st.value, env)
+                if fi is not None and depth < self.max_depth:
+                    return self._call_effects(fi, st.value, env, guards, depth)
+            return [(env, guards, None)]  # docstrings, logging, other bare calls: no value effect modelled
         if isinstance(st, (ast.Pass, ast.Import, ast.ImportFrom, ast.Global, ast.Nonlocal, ast.Assert)):
             return [(env, guards, None)]
         if isinstance(st, ast.Return):
@@ -262,6 +269,50 @@ class Extractor:
                     out.append((e, g, o))
             return out
         raise Undecided(f"statement {type(st).__name__} at line {st.lineno}: {src(st)[:60]}")
+
+    def _effect_callee(self, call: ast.Call, env: dict) -> Optional[FuncInfo]:
+        """self.m(...) / super().m(...) resolved inside the package and allowed by the inline policy"""
+        mod, cls = env.get("__module__"), env.get("__class__")
+        if not mod or not cls:
+            return None
+        f = call.func
+        if isinstance(f, ast.Attribute):
+            if isinstance(f.value, ast.Name) and f.value.id == "self":
+                fi = self.source.method(f"{mod}:{cls}", f.attr)
+                if fi is not None and self.inline(fi.name):
+                    return fi
+            if isinstance(f.value, ast.Call) and dotted(f.value.func) == "super":
+                mro = self.source.mro(f"{mod}:{cls}")
+                for ci in mro[1:]:
+                    if f.attr in ci.methods:
+                        fi = ci.methods[f.attr]
+                        return fi if self.inline(fi.name) else None
+        return None
+
+    def _call_effects(self, fi: FuncInfo, call: ast.Call, env: dict, guards: list, depth: int):
+        args = [self.expr(a, env, depth) for a in call.args]
+        kwargs = {k.arg: self.expr(k.value, env, depth) for k in call.keywords if k.arg}
+        params = [p for p in fi.params() if p not in ("self", "cls")]
+        bound: dict = {"__use_defaults__": True}
+        for i, p in enumerate(params):
+            if i < len(args):
+                bound[p] = args[i]
+            elif p in kwargs:
+                bound[p] = kwargs[p]
+        outer = {k: v for k, v in env.items() if k.startswith("self.")}
+        out = []
+        for p in self.paths(fi, bound, outer, depth + 1):
+            if p.raised is not None:
+                continue
+            e2 = dict(env)
+            for k, v in p.env.items():
+                if k.startswith("self."):
+                    e2[k] = v
+            self._rebind_closures(e2)
+            out.append((e2, guards + p.guards, None))
+        if not out:
+            raise Undecided(f"call {fi.name}: no normal path")
+        return out
 
     def _rebind_closures(self, env: dict) -> None:
         # closures capture the *variable*, so they must see the updated env copy
